@@ -1,12 +1,17 @@
 (* C12 — the problem built from a CdE export is exactly what the export says.  Property theorems only.
    CdeSpec.spec_read is a DECLARATIVE specification of cdedb::read: each registration and course is viewed in isolation (view_reg,
    view_course: what the export says about it for the selected track), the problem is described by filters, a sort and counts over
-   the views.  It and the line-by-line transcription Json.read_fields are both tied to the real reader by exact comparison inside
-   Coq on every generated export x option set; the theorems below are about the specification. *)
+   the views.  The line-by-line transcription Json.read_fields (two loops with running state) is tied to the real reader by exact
+   comparison inside Coq on every generated export x option set, and C12_refinement proves that the transcription computes the
+   specification for EVERY document and option set, refusals and their reasons included. *)
 From Coq Require Import List ZArith Lia Bool Arith String.
-Require Import Json CdeThms CdeSpec.
+Require Import Json CdeThms CdeSpec CdeRefine.
 Import ListNotations.
 Open Scope nat_scope.
+
+(* the transcription of cdedb::read is the declarative specification *)
+Theorem C12_refinement : forall data track ign_c ign_a ff of, read_fields data track ign_c ign_a ff of = spec_read data track ign_c ign_a ff of.
+Proof. exact read_fields_refines_spec. Qed.
 
 (* the participants are exactly the registrations that are kept, in key order ... *)
 Theorem C12_participants : forall ign_a rviews p,
@@ -47,8 +52,9 @@ Theorem C12_refuse_version : forall data tr ic ia a b, get "kind" data = Some (J
   get "EVENT_SCHEMA_VERSION" data = Some (JArr [JInt a; JInt b]) -> (a < 7 \/ 19 < a)%Z -> exists code, read_full data tr ic ia = RErr code.
 Proof. exact refuse_version. Qed.
 
-Check C12_participants. Check C12_participants_order. Check C12_kept. Check C12_penalty_position. Check C12_courses. Check C12_instructors.
+Check C12_refinement. Check C12_participants. Check C12_participants_order. Check C12_kept. Check C12_penalty_position. Check C12_courses. Check C12_instructors.
 Check C12_limits. Check C12_refuse_kind. Check C12_refuse_version.
+Print Assumptions C12_refinement.
 Print Assumptions C12_participants.
 Print Assumptions C12_kept.
 Print Assumptions C12_penalty_position.
